@@ -233,3 +233,28 @@ package sorted_set
 //@     invariant forall v Value :: has(zset0(params).members, v) <==> (old(has(zmembers(params), v)) && !(exists i int :: 0 <= i && i <= rangeindex && Value(old(params.Command[2:][i])) == v))
 //@     invariant forall v Value :: has(zset0(params).members, v) ==> zset0(params).members[v] == old(zmembers(params)[v])
 //@     invariant deletedCount == old(len(zmembers(params))) - len(zset0(params).members)
+
+// ZSCORE key member: nil for a missing key or member (the formatted score goes through strconv.FormatFloat: not decided).
+//@ func handleZSCORE props C17,C12,C13
+//@   requires generic.henv(params)
+//@   assumes own-cmd: len(params.Command) >= 2 ==> disjointarr(params.Command, $srv.keysWithExpiry.keys[dbof(params.Context)])
+//@   assumes stored-wf: len(params.Command) >= 2 && iszset(zval(params, zkey(params))) ==> zwf(aszset(zval(params, zkey(params))))
+//@   ensures {C17} arity: len(params.Command) != 3 ==> result1 != nil
+//@   ensures {C17} absent: len(params.Command) == 3 && !old(zlive(params, zkey(params))) ==> result1 == nil && bstr(result0) == "$-1\r\n"
+//@   ensures {C17} wrongtype: len(params.Command) == 3 && old(zlive(params, zkey(params))) && !old(iszset(zval(params, zkey(params)))) ==> result1 != nil
+//@   ensures {C17} nomember: len(params.Command) == 3 && onzset(params) && !old(has(zmembers(params), Value(params.Command[2]))) ==> result1 == nil && bstr(result0) == "$-1\r\n"
+//@   ensures {C17} member: len(params.Command) == 3 && onzset(params) && old(has(zmembers(params), Value(params.Command[2]))) ==> result1 == nil && bstr(result0) != "$-1\r\n"
+//@   ensures {C13,C17} pure: zpure(params)
+
+// ZINCRBY key increment member: adds the increment to the member's score; a missing member (or key) starts from the increment.
+// (Decided for integer increments; float and +-inf increments go through AdaptType / math.Inf: only the member set is decided.)
+//@ func handleZINCRBY props C17,C12
+//@   requires generic.henv(params)
+//@   assumes own-cmd: len(params.Command) >= 2 ==> disjointarr(params.Command, $srv.keysWithExpiry.keys[dbof(params.Context)])
+//@   assumes stored-wf: len(params.Command) >= 2 && iszset(zval(params, zkey(params))) ==> zwf(aszset(zval(params, zkey(params))))
+//@   ensures {C17} arity: len(params.Command) != 4 ==> result1 != nil
+//@   ensures {C17} wrongtype: len(params.Command) == 4 && old(zlive(params, zkey(params))) && !old(iszset(zval(params, zkey(params)))) ==> result1 != nil && zval(params, zkey(params)) == old(zval(params, zkey(params)))
+//@   ensures {C17} created: result1 == nil && !old(zlive(params, zkey(params))) ==> iszset(zval(params, zkey(params))) && (forall v Value :: has(zmembers(params), v) <==> v == Value(zarg(params, 3)))
+//@   ensures {C17} member-present: result1 == nil && onzset(params) ==> zval(params, zkey(params)) == old(zval(params, zkey(params))) && has(zmembers(params), Value(zarg(params, 3)))
+//@   ensures {C17} int-increment: result1 == nil && onzset(params) && isint(internal.adapt(zarg(params, 2))) ==> zmembers(params)[Value(zarg(params, 3))].Score == (old(has(zmembers(params), Value(params.Command[3]))) ? old(zmembers(params)[Value(params.Command[3])].Score) : 0.0) + float64(asint(internal.adapt(zarg(params, 2))))
+//@   ensures {C17} others: result1 == nil && onzset(params) ==> (forall v Value :: v != Value(zarg(params, 3)) ==> (has(zmembers(params), v) <==> old(has(zmembers(params), v))) && zmembers(params)[v] == old(zmembers(params)[v]))
